@@ -67,6 +67,8 @@ PROBES = [
     # validation that relies on custom validator code (the probe's answer needs the validator to have run)
     docs.obj(id='p', method='pd_strip', params=['  padded  ']), docs.obj(id='p', method='pd_pos', params=[0]),
     docs.obj(id='p', method='cnt.bump', params=[2]),
+    # variadic keywords under the pydantic validator: whatever the answer is, it is the same as on a fresh dispatcher
+    docs.obj(id='p', method='pd_kw', params={'a': 1, 'x': 2, 'y': 3}), docs.obj(id='p', method='pd_kw', params={'a': 1}),
     [docs.obj(id='p', method='mutate', params={'lst': [1]}), docs.obj(id='q', method='mutate', params={'lst': [1]})],
 ]
 UNENCODABLE = [docs.obj(id=1, method='unenc', params=[w]) for w in ('set', 'object', 'bytes', 'nested')] + \
@@ -692,6 +694,10 @@ def gen(ctx):
         crafted.append([a])
         crafted.append([a, a, ctx_reqs[0]])
     crafted.append([docs.obj(id=1, method='cnt.bump', params=[5]), docs.obj(method='cnt.bump', params=[7])])
+    for a in (docs.obj(id=1, method='pd_kw', params={'a': 1}), docs.obj(id=1, method='pd_kw', params=[1]),
+              docs.obj(id=1, method='pd_kw', params={'a': 1, 'z': 0})):
+        crafted.append([a])
+        crafted.append([a, a])
     # the very same request text several times before it is probed again
     for p_ in PROBES:
         crafted.append([p_])
